@@ -34,7 +34,7 @@ EXPLANATION = (
     "error flag and leaves the loop; R19d the error flag is read on every path from discovery to a process exit and "
     "the listing is not printed after an error; R19e scan, fix, --list-files and the API share the one discovery "
     "function (glob/os.walk/os.listdir are called nowhere else for documents); R19f an empty selection ends in "
-    "NO_FILES_TO_SCAN; R19g an argument is expanded as a glob exactly when it contains '*' or '?', as the user guide says. R19h every path entering the set is spelled canonically; R19i globs are expanded without the recursive flag; R19j no mutable state besides the result set is shared between the expansions of two arguments; R19k no error decision of discovery reads the set of files selected so far (the verdict on an argument is a matter of that argument alone). Not decided: the semantics of glob.glob / os.walk themselves, extension case rules."
+    "NO_FILES_TO_SCAN; R19g an argument is expanded as a glob exactly when it contains '*' or '?', as the user guide says. R19h every path entering the set is spelled canonically; R19i globs are expanded without the recursive flag; R19j no mutable state besides the result set is shared between the expansions of two arguments; R19l the list of sub-directories of the walk is not edited and the expansion of a glob is not filtered; R19k no error decision of discovery reads the set of files selected so far (the verdict on an argument is a matter of that argument alone). Not decided: the semantics of glob.glob / os.walk themselves, extension case rules."
 )
 ASSUMPTIONS = ["glob.glob, os.walk, os.path.isfile behave as documented"]
 
